@@ -321,6 +321,10 @@ def charstring_primitive(ctx):
                         'disagree on some texts (legacy vs extended clusters, CRLF)' % (norm_path(x.path), x.file(), t.span['line'], (t.callee_res() or '').rsplit('::', 1)[-1]), t.span)
     if seg < 1:
         raise AnchorMissing('calls to UnicodeSegmentation::graphemes in the crate')
+    # positions: byte_start_end / char_range_to_byte_range / get / sub agree with the stored cluster lengths (C16 states this as its own rule)
+    if ctx.prop != 'C16':
+        from rules.c16 import charstring_positions
+        charstring_positions(ctx)
     adt = ctx.facts.adts.get('unicode::CharString')
     tys = [fl['ty'] for v in (adt['variants'] if adt else ()) for fl in v['fields'] if fl['name'] == 'rle_cluster_lengths']
     ctx.require(bool(tys) and '(usize, usize)' in tys[0], b, 'length-width', 'cluster lengths are stored as usize', 'cluster lengths are stored as %s' % tys)
